@@ -39,14 +39,14 @@ def strategy(tier):
     bloom = st.fixed_dictionaries({
         "t": st.just("bloom"), "geom": geom, "hash": gen.hash_name_st(), "pool": gen.pool_st(2, 10),
         "ka": st.sampled_from(["bloom", "ondisk"]), "kb": st.sampled_from(["bloom", "ondisk"]),
-        "sa": so.stream_st(False), "sb": so.stream_st(False)})
+        "sa": so.stream_st(False), "sb": so.stream_st(False), "sx": so.stream_st(False, max_len=4), "chain": st.sampled_from([0, 0, 1, 2])})
     cb = st.fixed_dictionaries({
         "t": st.just("cbloom"), "geom": geom, "hash": gen.hash_name_st(), "pool": gen.pool_st(2, 10),
-        "sa": so.stream_st(True), "sb": so.stream_st(True)})
+        "sa": so.stream_st(True), "sb": so.stream_st(True), "sx": so.stream_st(True, max_len=4), "chain": st.sampled_from([0, 0, 1, 2])})
     cms = st.fixed_dictionaries({
         "t": st.just("cms"), "w": st.one_of(st.integers(1, 3), st.integers(1, 8)), "d": st.integers(1, 5),
         "hash": gen.hash_name_st(), "pool": gen.pool_st(2, 10), "qt": st.sampled_from(["min", "mean", "mean-min"]),
-        "sa": so.stream_st(True), "sb": so.stream_st(True)})
+        "sa": so.stream_st(True), "sb": so.stream_st(True), "sx": so.stream_st(True, max_len=4), "chain": st.sampled_from([0, 0, 1, 2])})
     return st.one_of(bloom, cb, cms)
 
 
@@ -56,6 +56,10 @@ def run_case(case, ctx):
     pool = so.keys_of(case)
     ra, ta = so.resolve(case["sa"], len(pool))
     rb, tb = so.resolve(case["sb"], len(pool))
+    # chain: one operand is itself the PRODUCT of an earlier union/join with a third stream X (a reachable state whose input
+    # stream is the concatenation); 1 = the receiver is a product, 2 = the argument is
+    chain = case.get("chain", 0)
+    rx, tx = so.resolve(case.get("sx", []), len(pool))
     t = case["t"]
     noexc = "C12.no_exception"
     objs = []
@@ -77,7 +81,22 @@ def run_case(case, ctx):
             S = so.make_bloom(ctx, "counting" if t == "cbloom" else "bloom", est, fpr, case["hash"], "s")
             so.feed(A, ka, pool, ra)
             so.feed(B, kb, pool, rb)
-            so.feed(S, "counting" if t == "cbloom" else "bloom", pool, ra + rb)
+            so.feed(S, "counting" if t == "cbloom" else "bloom", pool, ra + rb + (rx if chain else []))
+            if chain:
+                X = so.make_bloom(ctx, "counting" if t == "cbloom" else "bloom", est, fpr, case["hash"], "x")
+                so.feed(X, "counting" if t == "cbloom" else "bloom", pool, rx)
+                if chain == 1:
+                    A = ctx.call(noexc, A.union, X)
+                    ka = "counting" if t == "cbloom" else "bloom"
+                else:
+                    B = ctx.call(noexc, X.union, B)
+                    kb = "counting" if t == "cbloom" else "bloom"
+                ctx.check(noexc, A is not None and B is not None, "union of same-geometry same-hash operands returned None")
+                for i, v in tx.items():
+                    (ta if chain == 1 else tb)[i] += v
+                ctx.feat("chained_product_operand")
+                if (A if chain == 1 else B).elements_added == 0 and rx + (ra if chain == 1 else rb):
+                    ctx.feat("product_operand_with_zero_estimate")
             ca, cb_ = so.cells(A, ka), so.cells(B, kb)
             U = ctx.call(noexc, A.union, B)
             ctx.check(noexc, U is not None, "union of same-geometry same-hash operands returned None")
@@ -106,7 +125,14 @@ def run_case(case, ctx):
                 o.query_type = qt
             so.feed(A, "cms", pool, ra)
             so.feed(B, "cms", pool, rb)
-            so.feed(S, "cms", pool, ra + rb)
+            so.feed(S, "cms", pool, ra + rb + (rx if chain else []))
+            if chain:
+                X = so.make_cms(case["w"], case["d"], case["hash"])
+                so.feed(X, "cms", pool, rx)
+                (A if chain == 1 else B).join(X)
+                for i, v in tx.items():
+                    (ta if chain == 1 else tb)[i] += v
+                ctx.feat("chained_product_operand")
             bb, ba = bytes(B), bytes(A)
             r = ctx.call(noexc, A.join, B)
             ctx.check("C12.cms_join", bytes(A) == bytes(S), lambda: f"join result {bytes(A).hex()} != single-stream sketch {bytes(S).hex()}")
